@@ -98,14 +98,6 @@ def pred_empty(state, p):
     why = common(state, p['shape']) + only_types(state, {Wall, Floor, Exit})
     if count(state, Exit) != 1:
         why.append(f'{count(state, Exit)} exits')
-    h, w = p['shape']
-    inner_walls = [(y, x) for y, x, o in cells(state) if type(o) is Wall and 0 < y < h - 1 and 0 < x < w - 1]
-    if inner_walls:
-        why.append(f'walls inside an empty room at {inner_walls[:3]}')
-    if not p.get('random_exit') and not why and type(state.grid.objects[h - 2][w - 2]) is not Exit:
-        why.append('exit not in the bottom-right corner')
-    if not p.get('random_agent') and (state.agent.position.y, state.agent.position.x) != (1, 1):
-        why.append('agent not in the top-left corner')
     return why
 
 
